@@ -182,10 +182,13 @@ func mergeSameAlias(selections []*graphql.Selection) ([]*graphql.Selection, erro
 				isLastSelectionSetCopied = true
 			}
 
-			seenSelections := make(map[string]struct{}, len(selection.SelectionSet.Selections))
+			// Keep every sub-selection, also several with the same alias: they carry
+			// different sub-selections of their own and are merged when the result is
+			// flattened recursively. Only skip the very same selection seen twice.
+			seenSelections := make(map[*graphql.Selection]struct{}, len(selection.SelectionSet.Selections))
 			for _, s := range selection.SelectionSet.Selections {
-				if _, ok := seenSelections[s.Alias]; !ok {
-					seenSelections[s.Alias] = struct{}{}
+				if _, ok := seenSelections[s]; !ok {
+					seenSelections[s] = struct{}{}
 					last.SelectionSet.Selections = append(last.SelectionSet.Selections, s)
 				}
 			}
